@@ -286,9 +286,27 @@ pub struct Case {
     pub bytes: Vec<u8>,
     pub atts: Vec<AttKind>,
     pub how: How,
+    /// first receive (and fail to decode) another message with its own attachments on this thread
+    #[serde(default)]
+    pub after_failed_decode: bool,
 }
 
 fn body(c: &Case) -> Result<(), String> {
+    let mut earlier_kept: Vec<Kept> = Vec::new();
+    if c.after_failed_decode {
+        // a message carrying two senders and a region, expected as (u8, String): decoding fails
+        let (tx0, rx0) = ipc::channel::<Raw>().map_err(|e| e.to_string())?;
+        let (a0, k0) = make_atts(&[AttKind::Tx, AttKind::Tx, AttKind::Shm])?;
+        let (b0, _) = valid(9);
+        tx0.send(Raw { bytes: b0, atts: RefCell::new(a0) }).map_err(|e| format!("harness: raw send failed: {}", e))?;
+        let (res0, rx0box) = decode_as(3, rx0.to_opaque());
+        if res0.is_ok() {
+            return Err("harness: the preliminary message was expected to fail decoding".into());
+        }
+        drop(rx0box);
+        drop(tx0);
+        earlier_kept = k0;
+    }
     let (tx, rx) = ipc::channel::<Raw>().map_err(|e| e.to_string())?;
     let (atts, kept) = make_atts(&c.atts)?;
     tx.send(Raw { bytes: c.bytes.clone(), atts: RefCell::new(atts) }).map_err(|e| format!("harness: raw send failed: {}", e))?;
@@ -362,6 +380,21 @@ fn body(c: &Case) -> Result<(), String> {
             Kept::Shm => {},
         }
     }
+    for (i, k) in earlier_kept.iter().enumerate() {
+        if let Kept::RxOf(r) = k {
+            match r.try_recv() {
+                Err(TryRecvError::IpcError(IpcError::Disconnected)) => {},
+                other => {
+                    return Err(format!(
+                        "[attachment-not-released] sender #{} attached to an EARLIER message that failed to decode is still open: {:?}",
+                        i,
+                        other.map(|n| format!("message {}", n))
+                    ))
+                },
+            }
+        }
+    }
+    drop(earlier_kept);
     drop(kept);
     let snap = interpose::snapshot();
     if !snap.open_fds.is_empty() {
@@ -388,10 +421,11 @@ pub fn cases(tier: Tier) -> Vec<Case> {
                 bytes: bytes.clone(),
                 atts: atts.clone(),
                 how: How::Decode { expect: t },
+                after_failed_decode: false,
             });
         }
-        v.push(Case { label: format!("select-and-drop sent={}", TYPE_NAMES[s]), bytes: bytes.clone(), atts: atts.clone(), how: How::SelectAndDrop });
-        v.push(Case { label: format!("bytes-receiver sent={}", TYPE_NAMES[s]), bytes: bytes.clone(), atts: atts.clone(), how: How::BytesReceiver });
+        v.push(Case { label: format!("select-and-drop sent={}", TYPE_NAMES[s]), bytes: bytes.clone(), atts: atts.clone(), how: How::SelectAndDrop, after_failed_decode: false });
+        v.push(Case { label: format!("bytes-receiver sent={}", TYPE_NAMES[s]), bytes: bytes.clone(), atts: atts.clone(), how: How::BytesReceiver, after_failed_decode: false });
     }
     // (2) mutations of every valid encoding, decoded as the same type
     // quick: six boundary byte values; thorough: every byte value at every offset
@@ -405,16 +439,16 @@ pub fn cases(tier: Tier) -> Vec<Case> {
                 }
                 let mut b = bytes.clone();
                 b[off] = sb;
-                v.push(Case { label: format!("subst type={} off={} byte={:02x}", TYPE_NAMES[t], off, sb), bytes: b, atts: atts.clone(), how: How::Decode { expect: t } });
+                v.push(Case { label: format!("subst type={} off={} byte={:02x}", TYPE_NAMES[t], off, sb), bytes: b, atts: atts.clone(), how: How::Decode { expect: t }, after_failed_decode: false });
             }
         }
         for cut in 0..bytes.len() {
-            v.push(Case { label: format!("truncate type={} to={}", TYPE_NAMES[t], cut), bytes: bytes[..cut].to_vec(), atts: atts.clone(), how: How::Decode { expect: t } });
+            v.push(Case { label: format!("truncate type={} to={}", TYPE_NAMES[t], cut), bytes: bytes[..cut].to_vec(), atts: atts.clone(), how: How::Decode { expect: t }, after_failed_decode: false });
         }
         for ext in [1usize, 8] {
             let mut b = bytes.clone();
             b.extend(std::iter::repeat(0xabu8).take(ext));
-            v.push(Case { label: format!("extend type={} by={}", TYPE_NAMES[t], ext), bytes: b, atts: atts.clone(), how: How::Decode { expect: t } });
+            v.push(Case { label: format!("extend type={} by={}", TYPE_NAMES[t], ext), bytes: b, atts: atts.clone(), how: How::Decode { expect: t }, after_failed_decode: false });
         }
     }
     // (3) crafted attachment indices
@@ -426,6 +460,7 @@ pub fn cases(tier: Tier) -> Vec<Case> {
                     bytes: le(idx),
                     atts: vec![kind; natt],
                     how: How::Decode { expect: t },
+                    after_failed_decode: false,
                 });
             }
         }
@@ -435,7 +470,7 @@ pub fn cases(tier: Tier) -> Vec<Case> {
         let mut b = if t == 10 { le(2) } else { vec![] };
         b.extend(le(0));
         b.extend(le(0));
-        v.push(Case { label: format!("index-reused type={}", TYPE_NAMES[t]), bytes: b, atts: kinds, how: How::Decode { expect: t } });
+        v.push(Case { label: format!("index-reused type={}", TYPE_NAMES[t]), bytes: b, atts: kinds, how: How::Decode { expect: t }, after_failed_decode: false });
     }
     {
         // region index reused inside a vector-like pair: struct with region decoded twice is not in
@@ -444,7 +479,7 @@ pub fn cases(tier: Tier) -> Vec<Case> {
         b.extend(le(1));
         b.extend(le(0));
         b.extend(le(1));
-        v.push(Case { label: "index-reused type=Vec<IpcSender> (1,0,1)".into(), bytes: b, atts: vec![AttKind::Tx, AttKind::Tx], how: How::Decode { expect: 10 } });
+        v.push(Case { label: "index-reused type=Vec<IpcSender> (1,0,1)".into(), bytes: b, atts: vec![AttKind::Tx, AttKind::Tx], how: How::Decode { expect: 10 }, after_failed_decode: false });
     }
     // (4) attachment lists the type never references
     let maxn = if tier.is_quick() { 3 } else { 8 };
@@ -478,10 +513,24 @@ pub fn cases(tier: Tier) -> Vec<Case> {
                     bytes: bytes.clone(),
                     atts,
                     how: How::Decode { expect: t },
+                    after_failed_decode: false,
                 });
             }
         }
     }
+    // (5) the same decodes right after another message failed to decode on this thread
+    let mut again: Vec<Case> = Vec::new();
+    for c in v.iter() {
+        if let How::Decode { expect } = &c.how {
+            if c.label.starts_with("pair ") || (c.label.starts_with("index") && *expect == 6) {
+                let mut d = c.clone();
+                d.after_failed_decode = true;
+                d.label = format!("after-failed-decode {}", c.label);
+                again.push(d);
+            }
+        }
+    }
+    v.extend(again);
     v
 }
 
@@ -515,7 +564,7 @@ pub fn run(tier: Tier, _part: bool) -> i32 {
     }
     rep.set("evaluations", json!(n));
     rep.set("distinct_nontrivial", json!(outcomes.len()));
-    rep.set("rule", json!("cases: (1) all 144 ordered pairs (sent type, expected type) of the 12-type family plus select-and-drop and bytes-receiver per type, (2) every single-byte substitution from {00,01,02,7f,80,ff} (thorough: all 256 values) at every offset, every truncation, 1- and 8-byte extensions of each valid encoding, (3) attachment index in {0,1,count,count+1,MAX-1,MAX} x 0..2 attachments x {sender,receiver,region}, reused indices, (4) every unused attachment list of length 1..3 (rotations up to 8 thorough) over {sender,receiver,region}; distinct_nontrivial = distinct (case, value|error) outcomes that ended without panic or leak"));
+    rep.set("rule", json!("cases: (1) all 144 ordered pairs (sent type, expected type) of the 12-type family plus select-and-drop and bytes-receiver per type, (2) every single-byte substitution from {00,01,02,7f,80,ff} (thorough: all 256 values) at every offset, every truncation, 1- and 8-byte extensions of each valid encoding, (3) attachment index in {0,1,count,count+1,MAX-1,MAX} x 0..2 attachments x {sender,receiver,region}, reused indices, (4) every unused attachment list of length 1..3 (rotations up to 8 thorough) over {sender,receiver,region}, (5) all type pairs and sender-index cases again right after another message with attachments failed to decode on the same thread; distinct_nontrivial = distinct (case, value|error) outcomes that ended without panic or leak"));
     rep.set("exhaustive", json!(true));
     rep.sample(serde_json::to_value(&cs[7]).unwrap());
     rep.sample(serde_json::to_value(&cs[cs.len() / 2]).unwrap());
